@@ -198,6 +198,10 @@ func cmdVerify(args []string) int {
 			}
 		}
 		fmt.Printf("%-60s %d/%d  (%.2fs exec)\n", shortKey(fr.Key), ok, len(fr.Obls), fr.Secs)
+		if !vacuityOK(fr, solveOpts{secs: secs, workdir: wd}) {
+			fmt.Printf("   VACUOUS: hypotheses are unsatisfiable at every return of %s (contradictory contract or engine axioms)\n", shortKey(fr.Key))
+			bad++
+		}
 		for _, o := range fr.Obls {
 			if o.Result != "unsat" || verbose {
 				fmt.Printf("   %-8s %-9s %5.2fs %s   [%s] %s\n", o.Result, o.Backend, o.Secs, o.Name, o.Pos, o.Clause)
